@@ -123,6 +123,9 @@ def run(rep):
                              "%s in decode path %s allocates %s: %s" % (ob["what"], site_b.path if site_b else "?", S.show(ob["ops"][0])[:200], why),
                              site=site_b.loc(ob.get("ln")) if site_b else None)
                 continue
+            if ob["kind"] == "PushFull" and discharge(S, ob, lt)[0]:
+                rep.ok("no-panic", k, sample=discharge(S, ob, lt)[1])
+                continue
             if ob["kind"] == "PushFull":
                 rep.fail("no-panic", k, "%s (panics when the fixed-capacity vector is full) is reachable while decoding in %s: an over-long sequence aborts the process" % (
                     ob["what"], site_b.path if site_b else "?"), site=site_b.loc(ob.get("ln")) if site_b else None)
